@@ -126,6 +126,16 @@ def numeric_configs(tier):
             out.append(Config("C(SemiAdder)", f"[3+3,work={len(ww)},ctrl-work={len(cww)}]",
                               (lambda P, ww=ww, cww=cww: qp.ctrl(qp.SemiAdder([0, 1, 2], [3, 4, 5], work_wires=ww), control=[11, 12], work_wires=cww)),
                               0, False, numeric=True))
+    # TemporaryAND (Elbow): every control-value pair; its adjoint is only specified on inputs whose target already holds the AND
+    for cv in ((1, 1), (1, 0), (0, 1), (0, 0)):
+        c0 = Config("TemporaryAND", f"[cv={cv[0]}{cv[1]}]", (lambda P, cv=cv: qp.TemporaryAND(wires=[2, 0, 1], control_values=cv)), 0, False, numeric=False)
+        c0.valid_inputs = [(x << 2) | (y << 1) for x in (0, 1) for y in (0, 1)]       # documented domain: target wire in |0>
+        out.append(c0)
+        c = Config("Adjoint(TemporaryAND)", f"[cv={cv[0]}{cv[1]}]",
+                   (lambda P, cv=cv: qp.adjoint(qp.TemporaryAND(wires=[2, 0, 1], control_values=cv), lazy=True)), 0, False, numeric=False)
+        # valid inputs |x, y, t> (wire order = operator wires): t == AND of the controls w.r.t. the control values
+        c.valid_inputs = [((x << 2) | (y << 1) | int(x == cv[0] and y == cv[1])) for x in (0, 1) for y in (0, 1)]
+        out.append(c)
     return out
 
 
@@ -269,6 +279,21 @@ def op_small_matrix(op):
         for _ in range(abs(int(z))):
             P = pm_matmul(B, P)
         return pm_dagger(P) if z < 0 else P
+    tname = type(op).__name__
+    if tname in ("Adjoint", "AdjointOperation", "AdjointOp2", "Adjoint2") and hasattr(op, "base") and list(op.base.wires) == wires:
+        # adjoint of an emitted operator: conjugate transpose of the base's exact matrix (Adjoint.matrix is under contract in C03)
+        from .scalar import pm_dagger
+        return pm_dagger(op_small_matrix(op.base))
+    if tname == "Prod" and hasattr(op, "operands") and wires:
+        # product of emitted operators: ordered product of the operands' exact matrices (Prod.matrix is under contract in C03)
+        posn = {w: i for i, w in enumerate(wires)}
+        M = pm_eye(2 ** len(wires))
+        for o in reversed(op.operands):
+            M = apply_small(M, op_small_matrix(o), [posn[w] for w in o.wires], len(wires))
+        return M
+    if tname == "ChangeOpBasis" and wires:
+        # compute / target / uncompute: the exact matrix of its own (three-operator) decomposition, in circuit order
+        return circuit_matrix(op.decomposition(), wires)
     op = lift_float_params(op)
     try:
         m = qp.matrix(op, wire_order=wires) if wires else qp.matrix(op)
